@@ -35,7 +35,7 @@ func (c12) Describe() CheckInfo {
 		},
 		RealCode:       []string{"gopatch main()/mainCmd.Run, preview/printComments, patch.Parse/File.Apply, pkg/diff, x/tools/imports, internal/*"},
 		Stubs:          []string{"package os (simulated filesystem, streams, exit)", "path/filepath walk", "io/ioutil"},
-		RequiredProbes: []string{"agree-inplace-vs-print", "agree-diff-applied", "agree-api", "agree-verbose", "agree-refused-file", "description-on-stderr", "multi-file-print", "dry-fault-fired", "dry-kill", "dry-stdout-fail", "noncanonical-matched-file", "large-file", "agree-respelled-duplicate-arg", "agree-api-result-held", "agree-hard-linked-targets", "agree-name-near-name-max", "agree-diff-applied-crlf", "agree-diff-applied-no-final-newline", "agree-diff-shape-table", "agree-described-change-fails-to-replace"},
+		RequiredProbes: []string{"agree-inplace-vs-print", "agree-diff-applied", "agree-api", "agree-verbose", "agree-refused-file", "description-on-stderr", "multi-file-print", "dry-fault-fired", "dry-kill", "dry-stdout-fail", "noncanonical-matched-file", "large-file", "agree-respelled-duplicate-arg", "agree-api-result-held", "agree-hard-linked-targets", "agree-name-near-name-max", "agree-diff-applied-crlf", "agree-diff-applied-no-final-newline", "agree-diff-shape-table", "agree-described-change-fails-to-replace", "agree-write-protected-target"},
 	}
 }
 
@@ -140,7 +140,12 @@ func (c12) Gen(env *Env, seed uint64, tier string, i int) *Case {
 				name = fmt.Sprintf("%s%s%d.go", dir, strings.Repeat("L", 245), j)
 				c.Extra["long_name"] = "1"
 			}
-			c.AddFile(name, data, "match", ms, style)
+			fp := c.AddFile(name, data, "match", ms, style)
+			if r.Chance(1, 8) {
+				// a write-protected target: replacing it needs the directory, not the file
+				c.SetNode(world.NodeSpec{Path: fp, Kind: "file", Data: data, Mode: []uint32{0o444, 0o400, 0o555}[r.Intn(3)]})
+				c.Extra["readonly_target"] = "1"
+			}
 		} else {
 			style := r.Pick(Styles)
 			c.AddFile(fmt.Sprintf("%snm%d.go", dir, j), NonMatchingFile(r, style, ""), "nomatch", nil, style)
@@ -261,6 +266,11 @@ func c12Agree(env *Env, c *Case) (vs []Violation) {
 	fv := fp
 	fv.Verbose = true
 	rv := env.Run(withFlags(c, fv))
+	// the default mode with -v, in a world of its own (it writes): its log goes to
+	// stdout too, its descriptions must not
+	fwv := base
+	fwv.Verbose = true
+	rwv := env.Run(withFlags(c, fwv))
 	for _, r := range []*RunResult{rw, rp, rd, rv} {
 		if r.Outcome != OutExit {
 			env.Probe("run-did-not-exit")
@@ -469,7 +479,23 @@ func c12Agree(env *Env, c *Case) (vs []Violation) {
 		add("verbose", tag, fmt.Sprintf("with -v the --print-only output is not the files' outputs with log lines in between (first problem at %s)\nwith -v: %q\nwithout: %q", vwhere, clip(string(rv.Stdout), 400), clip(string(rp.Stdout), 400)))
 	}
 	// descriptions
-	for _, r := range []*RunResult{rw, rp, rd, rv} {
+	if c.Extra["readonly_target"] == "1" {
+		env.Probe("agree-write-protected-target")
+	}
+	if rwv.Outcome == OutExit {
+		// with -v the files end up exactly as without it
+		fv2 := goFiles(rwv.Final)
+		for _, f := range sorted {
+			if !bytes.Equal(fv2[f.Path].Data, final[f.Path].Data) {
+				add("verbose", "in-place-bytes/"+tag, fmt.Sprintf("with -v the default mode leaves %s as %q, without -v as %q", f.Path, clip(string(fv2[f.Path].Data), 200), clip(string(final[f.Path].Data), 200)))
+				break
+			}
+		}
+	}
+	for _, r := range []*RunResult{rw, rp, rd, rv, rwv} {
+		if r.Outcome != OutExit {
+			continue
+		}
 		if bytes.Contains(r.Stdout, []byte("VFMARK")) {
 			add("descriptions", "on-stdout", fmt.Sprintf("a description appears on stdout (%v): %q", r.W.Args, clip(string(r.Stdout), 300)))
 		}
